@@ -61,6 +61,7 @@ fn run(routine: &str, rest: &[String]) -> String {
         "bar_hidden" => bar::bar_hidden(rest),
         "multi_order" => bar::multi_order(rest),
         "multi_logs" => bar::multi_logs(rest),
+        "pos_history" => c05::pos_history(rest),
         "multi_bottom" => bar::multi_bottom(rest),
         "bar_reuse" => bar::bar_reuse(rest),
         "multi_rate" => bar::multi_rate(rest),
